@@ -59,6 +59,9 @@ def _worker_init(pid):
     _bind_repo()
     _driver = _load_driver(pid)
     signal.signal(signal.SIGALRM, _alarm)
+    if os.environ.get("VERIF_DEBUG_HANG"):
+        import faulthandler
+        faulthandler.dump_traceback_later(int(os.environ["VERIF_DEBUG_HANG"]), repeat=False, exit=False)
 
 
 def _run_one(args):
@@ -189,7 +192,7 @@ def main():
 
     for fp in seen_known:
         e = known_fp[fp]
-        print(f"KNOWN-FINDING: property={pid} {e.get('what', fp_str(fp))} [{len(by_fp[fp])} occurrence(s)]")
+        print(f"KNOWN-FINDING: property={pid} {e.get('what', fp_str(fp))} [{merged.fp_counts.get(tuple(fp[1:]), len(by_fp[fp]))} occurrence(s)]")
     for fp, e in known_fp.items():
         if fp not in by_fp and args.tier in e.get("tiers", ["quick", "thorough"]) and not args.only:
             print(f"STALE-FINDING: property={pid} not observed in this run: {fp_str(fp)}")
@@ -202,7 +205,7 @@ def main():
         path = os.path.join(VERIF, "replay", pid, fp_file(fp) + ".json")
         with open(path, "w") as f:
             json.dump({"property": pid, "fingerprint": list(fp), "task": jsonable(tasks[v["task_index"]]),
-                       "detail": v["detail"], "occurrences": len(by_fp[fp]), "tier": args.tier,
+                       "detail": v["detail"], "occurrences": merged.fp_counts.get(tuple(fp[1:]), len(by_fp[fp])), "tier": args.tier,
                        "seed": SEED}, f, indent=1, default=repr)
         ok = True
         if not args.no_confirm:
@@ -218,7 +221,7 @@ def main():
             confirmed += 1
             print(f"VIOLATION property={pid} replay={path}")
             print(f"  fingerprint: {fp_str(fp)}")
-            print(f"  occurrences: {len(by_fp[fp])}  detail: {json.dumps(v['detail'], default=repr)[:600]}")
+            print(f"  occurrences: {merged.fp_counts.get(tuple(fp[1:]), len(by_fp[fp]))}  detail: {json.dumps(v['detail'], default=repr)[:600]}")
     if len(new_fps) > PRINT_CAP:
         print(f"  ... and {len(new_fps) - PRINT_CAP} more distinct fingerprints (not confirmed individually)")
         confirmed += len(new_fps) - PRINT_CAP
